@@ -316,7 +316,11 @@ func raiseConversion(opts *options, v value, err error, to string) Error {
 func raiseExpectedObject(opts *options, v value) Error {
 	ctx := v.Context()
 	path := ctx.path(".")
-	t, _ := v.typ(opts)
+	t, terr := v.typ(opts)
+	if terr != nil {
+		// the value does not evaluate (cyclic or missing reference...): that is the error
+		return reifyErrAt(v, terr).(Error)
+	}
 	message := fmt.Sprintf("required 'object', but found '%v' in field '%v'",
 		t.name, path)
 
